@@ -58,7 +58,7 @@ class Instr:
         self.saved["gzip_decode"] = K.gzip_decode
         self.reset()
         for n in self.NAMES:
-            setattr(K, n, self._count(self.saved[n]))
+            setattr(K, n, self._count(self.saved[n], n))
         inst = self
         real_zlib = K.zlib
 
@@ -91,9 +91,31 @@ class Instr:
         for n, v in self.saved.items():
             setattr(self.K, n, v)
 
-    def _count(self, f):
+    @staticmethod
+    def sliced(name, a):
+        """Bytes the call slices out of the buffer (computed from its arguments, independently of
+        the function): the `struct` size of a successful relative_unpack; the length prefix, and the
+        body when it is there, of a length-prefixed string."""
+        try:
+            if name == "relative_unpack":
+                fmt, data, cur = a
+                size = struct.calcsize(fmt)
+                return size if len(data) >= cur + size else 0
+            data, cur = a
+            w = 4 if name == "read_int_string" else 2
+            if len(data) < cur + w:
+                return 0
+            (n,) = struct.unpack(">i" if w == 4 else ">h", data[cur : cur + w])
+            if n < 0 or len(data) < cur + w + n:
+                return w
+            return w + n
+        except (struct.error, TypeError):
+            return 0
+
+    def _count(self, f, name):
         def w(*a):
             self.reads += 1
+            self.bytes += self.sliced(name, a)
             if self.reads > self.limit + 8 * self.gz_bytes:
                 # far beyond every admissible bound: stop the decoder instead of letting a
                 # cursor-looping input run for hours; the monitor then fails on the count
@@ -105,6 +127,7 @@ class Instr:
     def reset(self, limit=10 ** 9):
         self.limit = limit
         self.reads = 0
+        self.bytes = 0
         self.crc_bytes = 0
         self.gz = []
         self.gz_bytes = 0
@@ -206,7 +229,7 @@ def eval_set(instr, data):
 
     instr.reset(budget(len(data or b"")))
     y, e = drain_set(C._decode_message_set_iter(data))
-    return {"yielded": y, "end": e, "cost": instr.reads + instr.crc_bytes, "gz": instr.gz_bytes, "gzt": instr.gz_tokens()}
+    return {"yielded": y, "end": e, "cost": instr.reads + instr.crc_bytes, "alloc": instr.bytes + instr.crc_bytes, "gz": instr.gz_bytes, "gzt": instr.gz_tokens()}
 
 
 def eval_dec(instr, decs, name, version, data):
@@ -215,8 +238,9 @@ def eval_dec(instr, decs, name, version, data):
     try:
         v = decs[name](data, version)
     except (Exception, ReadBudgetExceeded) as e:  # noqa: BLE001
-        return {"out": "error " + type(e).__name__, "outer": instr.reads, "cost": instr.reads, "gz": 0, "gzt": [], "sets": []}
+        return {"out": "error " + type(e).__name__, "outer": instr.reads, "outer_bytes": instr.bytes, "cost": instr.reads, "gz": 0, "gzt": [], "sets": []}
     outer = instr.reads
+    outer_bytes = instr.bytes
     sets = []
     if name == "fetch":
         parts = []
@@ -233,7 +257,7 @@ def eval_dec(instr, decs, name, version, data):
             out = canon(v)
         except TypeError as e:  # a value of a shape no decoder produces: reported as a disagreement
             out = "?uncanonical(%s)" % e
-    return {"out": "value " + out, "outer": outer, "cost": instr.reads + instr.crc_bytes, "gz": instr.gz_bytes, "gzt": instr.gz_tokens(), "sets": sets}
+    return {"out": "value " + out, "outer": outer, "outer_bytes": outer_bytes, "cost": instr.reads + instr.crc_bytes, "gz": instr.gz_bytes, "gzt": instr.gz_tokens(), "sets": sets}
 
 
 # ------------------------------------------------------------------ batching of model requests
@@ -462,6 +486,18 @@ def check_set(b, res, instr, data, scenario, tags_prefix=""):
             disagree(res, "message-set iteration: model differs from code", scenario, impl, g)
 
     b.add("decset %d %s %s" % (DEPTH, hx(data), " ".join(r["gzt"])), chk)
+
+    def achk(l, g):
+        if g != ["alloc %d gz %d" % (r["alloc"], r["gz"])]:
+            disagree(res, "message-set iteration: bytes sliced/copied by the code differ from the model's allocation measure", scenario, [r["alloc"], r["gz"]], g)
+
+    b.add("decseta %d %s %s" % (DEPTH, hx(data), " ".join(r["gzt"])), achk)
+
+    def amon(l, g):
+        if g != ["ok"]:
+            res.monitor_failures.append({"what": "message-set iteration: bytes sliced/copied exceed the linear bound", "scenario": dict(scenario, alloc=r["alloc"], gz=r["gz"]), "tags": ["set-alloc-superlinear"]})
+
+    b.add("mon-setalloc %d %d %d" % (len(data), r["gz"], r["alloc"]), amon)
 
     def xchk(l, g):
         if g != ["agree"]:
@@ -764,6 +800,18 @@ def hostile_cases(ctx, res, instr, per_decoder, random_per_decoder):
 
         b.add("dec %s %d %d %s %s" % (name, version, DEPTH, hx(data), " ".join(r["gzt"])), chk)
 
+        def achk(l, g):
+            if g != ["alloc %d" % r["outer_bytes"]]:
+                disagree(res, "decode_%s: bytes sliced by the code differ from the model's allocation measure" % name, sc, r["outer_bytes"], g)
+
+        b.add("deca %s %d %s" % (name, version, hx(data)), achk)
+
+        def amon(l, g):
+            if g != ["ok"]:
+                res.monitor_failures.append({"what": "decode_%s: bytes sliced exceed the linear bound" % name, "scenario": dict(sc, sliced=r["outer_bytes"]), "tags": ["alloc-superlinear"]})
+
+        b.add("mon-alloc %d %d" % (len(data), r["outer_bytes"]), amon)
+
         def xchk(l, g):
             if g != ["agree"]:
                 disagree(res, "decode_%s: the C12 model and the wire package's model differ" % name, sc, g[1:2], g[2:3])
@@ -964,6 +1012,51 @@ def cost_evidence(ctx, res, instr):
     res.extra["cost_evidence"] = rows
 
 
+def alloc_evidence(ctx, res, instr):
+    """tracemalloc peak and wall clock per input size class (evidence only, never compared): a valid
+    response / message set of about that size and a hostile variant of it (a count field claiming
+    2^31-1), decoded by the real code."""
+    from afkak.kafkacodec import KafkaCodec as C
+
+    rng = ctx.rng
+    decs = real_decoders()
+    rows = []
+
+    def measure(label, kind, n, fn):
+        instr.reset(budget(n) * 4)
+        tracemalloc.start()
+        t0 = time.perf_counter()
+        try:
+            fn()
+            out = "value"
+        except (Exception, ReadBudgetExceeded) as e:  # noqa: BLE001
+            out = type(e).__name__
+        dt = time.perf_counter() - t0
+        peak = tracemalloc.get_traced_memory()[1]
+        tracemalloc.stop()
+        rows.append({"input": label, "kind": kind, "len": n, "outcome": out, "reads": instr.reads, "sliced_bytes": instr.bytes + instr.crc_bytes,
+                     "peak_bytes": peak, "peak_per_input_byte": round(peak / max(n, 1), 2), "seconds": round(dt, 5)})
+
+    for size in ctx.scale([256, 4096, 65536], [256, 4096, 65536, 1048576]):
+        # metadata: many topics with a few partitions
+        per_topic = 2 + 2 + 6 + 4 + 3 * (14 + 4 + 8 + 4 + 8)
+        nt = max(1, size // per_topic)
+        topics = [(0, b"t%05d" % i, [(0, p, 1, [1, 2], [1, 2]) for p in range(3)]) for i in range(nt)]
+        data, counts = R.enc_metadata(1, [(1, b"host", 9092)], topics)
+        measure("metadata", "valid", len(data), lambda: decs["metadata"](data, 0))
+        off, w = counts[2]
+        bad = data[:off] + struct.pack(">i", 2 ** 31 - 1) + data[off + w :]
+        measure("metadata", "count=2^31-1", len(bad), lambda: decs["metadata"](bad, 0))
+        # a message set of ~size bytes in ~100-byte messages, iterated; and the same cut short
+        msgs = [(i, R.enc_message(0, 0, None, bytes(rng.getrandbits(8) for _ in range(64)))) for i in range(max(1, size // 90))]
+        ms = R.enc_set(msgs)
+        measure("message set", "valid", len(ms), lambda: list(C._decode_message_set_iter(ms)))
+        measure("message set", "cut short", len(ms) - 7, lambda: list(C._decode_message_set_iter(ms[:-7])))
+        fdata, _ = R.enc_fetch(1, [(b"t", [(0, 0, len(msgs), ms)])])
+        measure("fetch + sets", "valid", len(fdata), lambda: [list(r.messages) for r in decs["fetch"](fdata, 0)])
+    res.extra["alloc_by_size"] = rows
+
+
 def run_corpus(ctx, res, instr):
     if not os.path.isdir(CORPUS):
         return
@@ -1024,6 +1117,7 @@ def sections(ctx, res, f, corpus):
         if corpus:
             run_corpus(ctx, res, instr)
             cost_evidence(ctx, res, instr)
+            alloc_evidence(ctx, res, instr)
         crc_cases(ctx, res, n(300, 3000))
         msgset_cases(ctx, res, instr, n(600, 8000))
         burst_cases(ctx, res, instr, n_msgs=n(6, 24), exhaustive_span=ctx.scale(8, 11), per_span=ctx.scale(2, 6), sampled_large=n(20, 150))
